@@ -296,7 +296,7 @@ func observeDir(dir string, init map[int]initTab) dirObs {
 	if err != nil {
 		panic(err)
 	}
-	s := newLibSess(dir, 1)
+	s := newLibSess(dir, 20) // nobody else uses the directory any more; generous against machine load
 	defer s.finish(false)
 	for _, e := range ents {
 		k := fileKeyOf(e.Name())
@@ -312,6 +312,9 @@ func observeDir(dir string, init map[int]initTab) dirObs {
 			o.Same[k] = bytes.Equal(b, it.bytes())
 		}
 		t, err := s.read(fileSQL(k))
+		if err != nil && strings.Contains(err.Error(), "deadline") {
+			t, err = s.read(fileSQL(k))
+		}
 		if err != nil {
 			o.Bad = append(o.Bad, e.Name()+": "+err.Error())
 			continue
